@@ -177,8 +177,10 @@ def step (st : St) (ts : List String) : St × String :=
     | some sets =>
       let i0 := Ini.readUnreadable (sw == "1")
       let i1 := sets.foldl (fun i nv => Ini.set i nv.1 nv.2) i0
-      -- the destructor's `write` cannot open a directory for writing: nothing changes
-      (st, dump i0 ++ " | " ++ dump i1 ++ " | dir")
+      -- the destructor runs `write` (in bounds or not is the model's answer); it cannot open a directory for
+      -- writing, so nothing on disk changes
+      let fin := if i1.shouldwrite then (match Ini.write i1 with | some _ => "dir" | none => "oob") else "dir"
+      (st, dump i0 ++ " | " ++ dump i1 ++ " | " ++ fin)
     | none => (st, "bad-op")
   | "tabw" :: args =>
     match tableArgs args with
